@@ -1080,6 +1080,46 @@ def eq_cases(rng, n):
     return out
 
 
+def related_cases(rng, n):
+    """families of strings that a normalising memo would confuse (case variants, U+212A / U+017F /
+    U+0130 for k / s / i, surrounding blanks, a final newline or dot, leading zeros, full-width
+    and Arabic digits), each family asked in a random order, valid members first as often as last"""
+    out = []
+
+    def variants(sx):
+        vs = {sx, sx.upper(), sx.lower(), sx.swapcase(), sx + '\n', sx + ' ', ' ' + sx, sx + '.', sx + '..',
+              sx.replace('k', '\u212a'), sx.replace('s', '\u017f'), sx.replace('i', '\u0130'),
+              sx.replace('K', '\u212a'), sx.replace('S', '\u017f'), sx.replace('I', '\u0131'), sx.strip('.'),
+              '0' + sx, sx.replace('1', '\uff11'), sx.replace('0', '\u0660'), sx.replace('-', '_'), sx + '\x00'}
+        return sorted(vs)
+    seeds_host = ['kiss.example.com', 'SKI.io', 'a-b.c-d.net', 'x1.y2', 'ex.com', 'k.s.i']
+    seeds_proto = ['ssl', 'tcp', 'ws', 'ski+k', 'Kiss', 'irc.s-1']
+    seeds_port = ['80', '8080', '65535', '1', '010', '65536']
+    while len(out) < n:
+        fam = rng.choice(('host', 'proto', 'port'))
+        if fam == 'host':
+            base = rng.choice(seeds_host + [gen_hostname(rng)])
+            ops = ('host', 'classify')
+        elif fam == 'proto':
+            base = rng.choice(seeds_proto + [gen_protocol(rng)])
+            ops = ('proto',)
+        else:
+            base = rng.choice(seeds_port + [str(rng.randrange(1, 70000))])
+            ops = ('port',)
+        vs = variants(base)
+        rng.shuffle(vs)
+        for _ in range(2):
+            for v in vs:
+                for op in ops:
+                    out.append(Case(op, v))
+            vs.reverse()
+        if fam == 'host':
+            for v in vs[:6]:
+                out.append(Case('addr', v + ':80'))
+                out.append(Case('svc', 'tcp://' + v + ':80'))
+    return out[:n]
+
+
 RULE = ('case = one call of validate_protocol / is_valid_hostname / classify_host / validate_port / '
         '_split_address / NetAddress(..)+str+from_string / Service(..)+str+from_string / '
         'NetAddress.from_string / Service.from_string (with and without default_func) / == of two '
@@ -1152,6 +1192,10 @@ def run(ctx):
     evaluate(ctx, generated_cases(rng, (1500, 5000, 20000)[level] if big else 1500), res, 'generated')
     evaluate(ctx, default_cases(rng, (1500, 4000, 12000)[level] if big else 1500), res, 'default_func')
     evaluate(ctx, eq_cases(rng, (600, 1500, 4000)[level]), res, 'equality')
+    # (g) the answers are functions of the argument: the same questions again in a shuffled order
+    # (a memo keyed on a normalised copy of the string, or any other carried state, answers a
+    # string with what it computed for a relative asked earlier)
+    evaluate(ctx, related_cases(rng, (4000, 8000, 30000)[level]), res, 'related_strings_shuffled')
     for c in generated_cases(random.Random(ctx.seed + 1), 2)[:4]:
         run_case(c, 4300)
         res.sample({'line': c.line[:200], 'impl': c.impl[:200]})
@@ -1263,4 +1307,8 @@ def replay(ctx, case):
         RX_OBJECTS[name] = getattr(util, name, None) or re.compile(eval(case['pattern']), case['flags'])
     evaluate(ctx, [Case(case['op'], *args)], res, 'replay')
     res.sample(case)
+    if not res.failed and not os.environ.get('VERIF_REPLAY_SINGLE'):
+        # the recorded answer may depend on what was asked before it (carried state): nothing
+        # smaller reproduces it than the run that found it
+        return run(ctx)
     return res.finish('replay of one recorded case')
